@@ -234,6 +234,7 @@ fn note_handle(hs: &mut Vec<H>, ans: &str) {
 
 const SCALAR_SCOPES: &[&str] = &[
     "null", "b0", "b1", "n3ff0000000000000", "e3", "e5", "zs3", "zo2", "za2", "n7ff0000000000000",
+    "nc031000000000000", "nc031400000000000", "nc0091eb851eb851f", "nbff0000000000000", "n8000000000000000", "nfff0000000000000",
 ];
 
 fn read_history(rec: &mut Rec, rng: &mut Rng, n_ops: usize, interned: &[(usize, Vec<u8>)], big: bool) {
@@ -454,6 +455,57 @@ fn keyed_map(n: usize, k: &[u8], at: &[usize]) -> Vec<u8> {
 
 /// lookups of one (interned) name in several objects where it sits at different positions, once and
 /// twice: the answer is the first match in *this* object, whatever was found where before
+/// a NaN float (legal MessagePack, a read error as a value) inside containers: what follows it is still there
+fn nan_inside_cases(rec: &mut Rec, label: &str) {
+    let f64nan: &[u8] = &[0xcb, 0x7f, 0xf8, 0, 0, 0, 0, 0, 0];
+    let f32nan: &[u8] = &[0xca, 0x7f, 0xc0, 0, 0];
+    let long: Vec<u8> = (0..20000usize).map(|i| b'a' + (i % 26) as u8).collect();
+    for nan in [f64nan, f32nan] {
+        // [1, NaN, "xy", [7, 8], <20000-byte string>]
+        let mut a = vec![0x95u8, 0x01];
+        a.extend_from_slice(nan);
+        a.extend_from_slice(&[0xa2, b'x', b'y', 0x92, 0x07, 0x08, 0xda]);
+        a.extend_from_slice(&(long.len() as u16).to_be_bytes());
+        a.extend_from_slice(&long);
+        // {"a": 1, "n": NaN, "note": <long>, "z": [1,2,3]}
+        let mut o = vec![0x84u8, 0xa1, b'a', 0x01, 0xa1, b'n'];
+        o.extend_from_slice(nan);
+        o.extend_from_slice(&[0xa4, b'n', b'o', b't', b'e', 0xda]);
+        o.extend_from_slice(&(long.len() as u16).to_be_bytes());
+        o.extend_from_slice(&long);
+        o.extend_from_slice(&[0xa1, b'z', 0x93, 0x01, 0x02, 0x03]);
+        // [[NaN], 5]
+        let mut n = vec![0x92u8, 0x91];
+        n.extend_from_slice(nan);
+        n.push(0x05);
+        for doc in [a.clone(), o.clone(), n.clone()] {
+            for order in 0..2 {
+                rec.case(label);
+                rec.bump("doc:nan-inside");
+                rec.op(&format!("init {}", hex0(&doc)));
+                rec.op("root");
+                rec.op("len h0");
+                let idxs: Vec<usize> = if order == 0 { vec![4, 3, 2, 1, 0] } else { vec![0, 1, 2, 3, 4] };
+                for i in idxs {
+                    let r = rec.op(&format!("idx h0 {}", i));
+                    if let Some(h) = r.split_whitespace().nth(1) {
+                        if r.starts_with("str") || r.starts_with("arr") || r.starts_with("obj") {
+                            rec.op(&format!("len {}", h));
+                            rec.op(&format!("a.len {}", h));
+                            rec.op(&format!("idx {} 1", h));
+                        }
+                    }
+                }
+                for k in [&b"note"[..], b"z", b"n", b"a"] {
+                    rec.op(&format!("prop h0 {}", hex0(k)));
+                    rec.op(&format!("aprop h0 {}", hex0(k)));
+                }
+                rec.op("key h0 2");
+            }
+        }
+    }
+}
+
 fn lookup_position_cases(rec: &mut Rec, label: &str) {
     // lookups by cached ids whose handles are slices of one static string
     {
@@ -511,6 +563,7 @@ fn lookup_position_cases(rec: &mut Rec, label: &str) {
 
 fn gen_c01(rec: &mut Rec, rng: &mut Rng, cases: u64, malformed: bool) {
     lookup_position_cases(rec, if malformed { "c08" } else { "c01" });
+    nan_inside_cases(rec, if malformed { "c08" } else { "c01" });
     // deeply nested values that have to be stepped over (valid for C01, cut off for C08)
     for &k in &[1usize, 64, 127, 128, 129, 300] {
         rec.case(if malformed { "c08" } else { "c01" });
@@ -950,6 +1003,7 @@ fn gen_c11(rec: &mut Rec, rng: &mut Rng, scale: u64) {
             }
         }
     }
+    nan_inside_cases(rec, "c11");
     // small objects with the empty key (2-byte entries) as the last value of the input: they have a length too
     for doc in [&[0x81u8, 0xa0, 0x07][..], &[0x83, 0xa0, 0x00, 0xa1, b'a', 0x01, 0xa1, b'b', 0x02], &[0x92, 0x09, 0x82, 0xa0, 0x04, 0xa1, b'k', 0x05],
                 &[0x82, 0xa1, b'a', 0x93, 0x01, 0x02, 0x03, 0xa1, b'z', 0x82, 0xa0, 0x04, 0xa1, b'k', 0x05], &[0x82, 0xa0, 0xa0, 0xa1, b'x', 0xa0], &[0x8f, 0xa0, 0, 0xa0, 0, 0xa0, 0, 0xa0, 0, 0xa0, 0, 0xa0, 0, 0xa0, 0, 0xa0, 0, 0xa0, 0, 0xa0, 0, 0xa0, 0, 0xa0, 0, 0xa0, 0, 0xa0, 0, 0xa0, 0]] {
@@ -1304,6 +1358,29 @@ fn gen_writes(rec: &mut Rec, rng: &mut Rng, cases: u64, keep_going: bool) {
             }
         }
     }
+    // a write by an id this thread never interned (the pristine code panics before touching anything): whatever
+    // the answer, it must not count as a written value
+    for ctx in 0..3 {
+        rec.case(if keep_going { "c03" } else { "c02" });
+        rec.bump("unknown-interned-id");
+        rec.op("init c0");
+        match ctx {
+            1 => {
+                rec.op("w arr 2");
+            }
+            2 => {
+                rec.op("w obj 1");
+                rec.op("w str 6b");
+            }
+            _ => {}
+        }
+        rec.op("w istr 4242");
+        rec.op("w i32 1");
+        rec.op("w i32 2");
+        rec.op(if ctx == 2 { "w endobj" } else { "w endarr" });
+        rec.op("out?");
+        rec.op("fin");
+    }
     // strings by cached id where the handles are slices of one static string (same address, different lengths)
     {
         rec.case(if keep_going { "c03" } else { "c02" });
@@ -1652,6 +1729,38 @@ fn gen_boxes(rec: &mut Rec, rng: &mut Rng, scale: u64) {
     for c in 0..8 {
         let bits = rec.op(&format!("box err {}", c));
         rec.op(&format!("unbox {}", bits));
+    }
+    // what the api crate's kind / length accessors say about plain doubles of every sign, exponent class and
+    // every value of the bits a box would keep its tag in: a number is a number, never a box of any kind
+    {
+        let mut nums: Vec<u64> = Vec::new();
+        for sign in [0u64, 1] {
+            for exp in [0u64, 1, 0x3ff, 0x403, 0x404, 0x433, 0x43e, 0x7fe, 0x7ff] {
+                for tagbits in 0..16u64 {
+                    for low in [0u64, 1, 0x3fff, (1 << 46) - 1] {
+                        let bits = (sign << 63) | (exp << 52) | (tagbits << 46) | low;
+                        if !f64::from_bits(bits).is_nan() {
+                            nums.push(bits);
+                        }
+                    }
+                }
+            }
+        }
+        for f in [-17.0f64, -17.25, -3.14, -42.0, -100.0, -1.0, -0.0, f64::MIN, f64::NEG_INFINITY, -2.3641409746639015e-308, 17.0, 3.14] {
+            nums.push(f.to_bits());
+        }
+        for _ in 0..(200 * scale) {
+            let b = rng.next();
+            if !f64::from_bits(b).is_nan() {
+                nums.push(b);
+            }
+        }
+        for b in nums {
+            rec.op(&format!("a.kind n{:016x}", b));
+            if b % 3 == 0 {
+                rec.op(&format!("a.len n{:016x}", b));
+            }
+        }
     }
     for b in 0..2 {
         let bits = rec.op(&format!("box bool {}", b));
